@@ -292,6 +292,26 @@ def run_lines(cmd, timeout=1800, env=None):
     rc, out = sh(cmd, timeout=timeout, env=env)
     return rc, out.splitlines()
 
+def run_lines_sharded(cmd, casefile, shards=12, timeout=1800, env=None):
+    """a line-oriented driver whose output for a case depends on that case's line only: the case file is cut into contiguous shards, the
+    shards run in parallel, the outputs are concatenated in order. returns (worst rc, lines)"""
+    from concurrent.futures import ThreadPoolExecutor
+    lines = [l for l in open(casefile).read().splitlines() if l.strip()]
+    if len(lines) < 4 * shards:
+        return run_lines(cmd + [casefile], timeout=timeout, env=env)
+    n = (len(lines) + shards - 1) // shards
+    files = []
+    for k in range(shards):
+        part = lines[k * n:(k + 1) * n]
+        if not part: continue
+        f = f"{casefile}.shard{k}"; open(f, 'w').write('\n'.join(part) + '\n'); files.append(f)
+    with ThreadPoolExecutor(max_workers=shards) as ex:
+        outs = list(ex.map(lambda f: run_lines(cmd + [f], timeout=timeout, env=env), files))
+    for f in files:
+        try: os.remove(f)
+        except OSError: pass
+    return max(rc for rc, _ in outs), [l for _, ls in outs for l in ls]
+
 # ------------------------------------------------------------------ comparison
 def split_oracle(lines):
     obs = [l for l in lines if not l.startswith('ORACLE-FAIL')]
